@@ -2211,3 +2211,42 @@ Proof. split; vm_compute; reflexivity. Qed.
 (* With the with_delay flag the release is 300ms later. *)
 Example ex_delay_offset : att_offset 12000000000 FOnDelay = 4300000000 /\ att_offset 12000000000 FOn = 4000000000.
 Proof. split; vm_compute; reflexivity. Qed.
+
+(* ---- never for a validator outside the cluster ---- *)
+
+(* [cl] = the public keys of the cluster's validators. The scheduler takes its validators from
+   CompleteValidators, i.e. (app/app.go) from eth2wrap.ValidatorCache, which queries the beacon node with
+   the cluster's public keys as filter. [vals_in_cluster]: every validators answer handed to the scheduler
+   contains cluster validators only -- checked on every recorded history, in particular on those that run
+   the real ValidatorCache against a beacon node that knows other validators too.
+   [trigs_in_cluster]: every triggered definition is for a cluster public key. *)
+Definition vals_in_cluster (cl : list N) (ls : list label) : bool :=
+  forallb (fun l => match l with
+                    | LTick _ sc _ =>
+                        forallb (fun rn => match r_vals rn with
+                                           | Some vs => forallb (fun v => memN (v_pk v) cl) vs
+                                           | None => true
+                                           end) sc
+                    | _ => true
+                    end) ls.
+
+Definition trigs_in_cluster (cl : list N) (ls : list label) : bool :=
+  forallb (fun l => match l with
+                    | LTick _ _ outs => forallb (fun tr => forallb (fun d => memN (fst d) cl) (t_defs tr)) outs
+                    | LFire _ defs => forallb (fun d => memN (fst d) cl) defs
+                    | _ => true
+                    end) ls.
+
+Theorem never_outside_cluster D spe fm cl t0 ls pre t sc outs post tr pk e :
+  0 < spe -> vals_in_cluster cl ls = true -> monitor D spe fm t0 ls = true ->
+  ls = pre ++ LTick t sc outs :: post -> In tr outs -> In (pk, e) (t_defs tr) -> memN pk cl = true.
+Proof.
+  intros Hs Hv Hm Hls Htr Hdef.
+  destruct (triggered_only_assigned D spe fm Hs t0 ls pre t sc outs post tr pk e Hm Hls Htr Hdef)
+    as [t' [sc' [outs' [rn [slot [vals [v [A [B [_ [C [E [_ [_ [F _]]]]]]]]]]]]]]].
+  assert (Hin : In (LTick t' sc' outs') ls).
+  { rewrite Hls. apply in_app_or in A. apply in_or_app. destruct A as [A|[A|[]]]; [left; exact A | right; left; exact A]. }
+  unfold vals_in_cluster in Hv. rewrite forallb_forall in Hv. specialize (Hv _ Hin). simpl in Hv.
+  rewrite forallb_forall in Hv. specialize (Hv rn B). rewrite C in Hv. rewrite forallb_forall in Hv.
+  specialize (Hv v E). rewrite F in Hv. exact Hv.
+Qed.
